@@ -221,8 +221,17 @@ type Attr struct {
 // UnmarshalToType unmarshals the data into a value of the type represented by
 // the attribute and returns it.
 func (a Attr) UnmarshalToType(data []byte) (any, error) {
-	if a.Nullable && string(data) == "null" {
-		return GetZeroValue(a.Type, a.Nullable), nil
+	if string(data) == "null" {
+		if a.Nullable {
+			return GetZeroValue(a.Type, a.Nullable), nil
+		}
+
+		// Only nullable attributes can be null.
+		return nil, NewErrInvalidFieldValueInBody(
+			a.Name,
+			string(data),
+			GetAttrTypeString(a.Type, a.Nullable),
+		)
 	}
 
 	var (
